@@ -236,6 +236,32 @@ func oMenu() []cfg {
 	}
 }
 
+// oMirrorMenu (round 6): K is in group G2; M2 / M1 are the mirror keys of G2 / G1
+// (same X, opposite Y), rK / rO / rA.. the byte-reversed hashes of K / Oracle / A..
+func oMirrorMenu() []cfg {
+	R := byte(transaction.Rules)
+	allow := func(c *scond) []srule { return []srule{{Allow: true, C: c}} }
+	denyElseAllow := func(c *scond) []srule {
+		return []srule{{Allow: false, C: c}, {Allow: true, C: &scond{Op: "bool", B: true}}}
+	}
+	return []cfg{
+		{Scope: byte(transaction.CustomGroups), AG: []string{"M2"}},
+		{Scope: byte(transaction.CustomGroups), AG: []string{"M1"}},
+		{Scope: R, Rules: allow(&scond{Op: "group", Sym: "M2"})},
+		{Scope: R, Rules: allow(&scond{Op: "bygroup", Sym: "M2"})},
+		{Scope: R, Rules: denyElseAllow(&scond{Op: "group", Sym: "M2"})},
+		{Scope: R, Rules: denyElseAllow(&scond{Op: "bygroup", Sym: "M2"})},
+		{Scope: R, Rules: allow(&scond{Op: "group", Sym: "M1"})},
+		{Scope: R, Rules: denyElseAllow(&scond{Op: "group", Sym: "M1"})},
+		{Scope: byte(transaction.CustomContracts), AC: []string{"rK"}},
+		{Scope: R, Rules: allow(&scond{Op: "hash", Sym: "rK"})},
+		{Scope: R, Rules: allow(&scond{Op: "byhash", Sym: "rO"})},
+		{Scope: R, Rules: denyElseAllow(&scond{Op: "byhash", Sym: "rO"})},
+		{Scope: R, Rules: allow(&scond{Op: "byhash", Sym: "rK"})},
+		{Scope: byte(transaction.CustomContracts), AC: []string{"rA", "rB", "rC"}},
+	}
+}
+
 // oSigner: one signer of a signer set: account symbol ("s<i>", "sender", "nodes",
 // "oracle", "B") and its configuration.
 type oSigner struct {
@@ -264,6 +290,13 @@ func oSignerSet(name string) []oSigner {
 		return append(append([]oSigner{{"sender", none}}, menuSigners(5)...), oSigner{"nodes", glob})
 	case "T3":
 		return []oSigner{{"sender", glob}}
+	case "T4": // round 6: the menu written in mirror keys and byte-reversed hashes
+		m := oMirrorMenu()
+		out := []oSigner{{"sender", none}}
+		for i := 0; i < oSlots; i++ {
+			out = append(out, oSigner{Acc: fmt.Sprintf("s%d", i), Cfg: m[i%len(m)]})
+		}
+		return out
 	case "real":
 		return []oSigner{{"oracle", none}, {"nodes", none}}
 	case "menu":
@@ -394,6 +427,7 @@ func newOracleWorld() (*oWorld, error) {
 	w.U["K"] = c
 	w.base.H["K"] = c.Hash
 	w.base.H["O"] = nativehashes.OracleContract
+	addReversedTwins(w.base.H) // round 6
 	w.group["K"] = []string{g2.PublicKey().StringCompressed()}
 	w.n0 = names{H: w.base.H, K: w.base.K}
 	// the oracle node
@@ -414,7 +448,7 @@ func newOracleWorld() (*oWorld, error) {
 	for _, r := range []struct {
 		name string
 		n    int
-	}{{"T1", 2}, {"T2", 2}, {"T3", 1}} {
+	}{{"T1", 2}, {"T2", 2}, {"T3", 1}, {"T4", 1}} {
 		prog := []any{}
 		for i := 0; i < r.n; i++ {
 			prog = append(prog, []any{chainx.OpCall, nativehashes.OracleContract.BytesBE(), "request", int(callflag.All),
@@ -1322,7 +1356,7 @@ func oCases(thorough bool) []oCase {
 	}
 	var out []oCase
 	for _, steps := range stepSets {
-		for _, req := range []string{"T1", "T2", "T3"} {
+		for _, req := range []string{"T1", "T2", "T3", "T4"} {
 			for _, own := range []string{"real", "menu"} {
 				out = append(out, oCase{Req: req, Own: own, Steps: steps, Var: "plain"})
 				out = append(out, oCase{Req: req, Own: own, Steps: steps, Var: "plain", Exact: true})
